@@ -103,7 +103,8 @@ Definition C07_commit_shows_exact_state_full : Prop :=
    every reachable parent-side instance that caches a value of a row the transaction changed (i) has its id
    in the transaction's cache at this moment or in _deletedCache [open finding commit_forgets_uncached_row]
    and (ii) is still handed out by the parent's cache [open finding commit_misses_purged_parent_instance].
-   Nothing else is asked (expire() has no early return on the flag since e94d801 and does not raise since 1aded16). *)
+   Nothing else is asked: expire() always drops the attributes (e94d801, ad272ca: the flag and the cache purge only if not
+   flagged already) and does not raise (1aded16). *)
 Theorem C07_commit_shows_exact_state_partial :
   forall (cfg : config) (ops : list op) (close : bool),
     let s := run cfg init ops in
